@@ -83,6 +83,94 @@ try:
                             for p_, e in wt3.iter_entries_by_dir() if p_)
         if actual != expected:
             verdict(True, "the applied tree differs from the preview", input=variant, observed=str(actual), expected=str(expected))
-    verdict(False, "no failing scenario")
+    # every combination of up to three transform operations from a fixed menu on a small tree: after resolve_conflicts the transform either
+    # is refused as malformed (tree untouched) or applies completely, and the applied tree equals the preview (paths, ids, kinds, texts,
+    # executable bits)
+    import itertools as _it, stat as _stat
+
+    def tree_state(t, root=None):
+        out = []
+        with t.lock_read():
+            for p_, e_ in t.iter_entries_by_dir():
+                if not p_:
+                    continue
+                text = ex = None
+                if e_.kind == "file":
+                    try:
+                        text = t.get_file_text(p_)
+                        ex = bool(t.is_executable(p_))
+                    except Exception:  # noqa  (versioned but no content: missing file)
+                        text = ex = None
+                out.append((p_, e_.file_id, e_.kind, text, ex))
+        return sorted(out)
+
+    def op_rename_a(tt): tt.adjust_path("x", tt.root, tt.trans_id_tree_path("a"))
+    def op_move_b_into_d(tt): tt.adjust_path("b", tt.trans_id_tree_path("d"), tt.trans_id_tree_path("b"))
+    def op_delete_a(tt):
+        t_ = tt.trans_id_tree_path("a"); tt.delete_contents(t_); tt.unversion_file(t_)
+    def op_delete_contents_of_a_only(tt): tt.delete_contents(tt.trans_id_tree_path("a"))
+    def op_new_file_named_a(tt): tt.new_file("a", tt.root, [b"new a\n"], b"a2-id")
+    def op_new_file_n(tt): tt.new_file("n", tt.root, [b"n\n"], b"n-id")
+    def op_exec_b(tt): tt.set_executability(True, tt.trans_id_tree_path("b"))
+    def op_rename_d(tt): tt.adjust_path("e", tt.root, tt.trans_id_tree_path("d"))
+    def op_delete_d(tt):
+        t_ = tt.trans_id_tree_path("d"); tt.delete_contents(t_); tt.unversion_file(t_)
+    def op_replace_b(tt):
+        t_ = tt.trans_id_tree_path("b"); tt.delete_contents(t_); tt.create_file([b"b2\n"], t_)
+    def op_new_dir_in_d(tt): tt.new_directory("sub", tt.trans_id_tree_path("d"), b"sub-id")
+    def op_unversion_b(tt): tt.unversion_file(tt.trans_id_tree_path("b"))
+    def op_new_file_in_d_named_c(tt): tt.new_file("c", tt.trans_id_tree_path("d"), [b"new c\n"], b"c2-id")
+    menu = [op_rename_a, op_move_b_into_d, op_delete_a, op_delete_contents_of_a_only, op_new_file_named_a, op_new_file_n, op_exec_b, op_rename_d,
+            op_delete_d, op_replace_b, op_new_dir_in_d, op_unversion_b, op_new_file_in_d_named_c]
+    n_tr = 0
+    max_ops = 2 if req.get("tier", "quick") == "quick" else 3
+    for k_ in range(1, max_ops + 1):
+        for ops in _it.combinations(menu, k_):
+            n_tr += 1
+            dd = os.path.join(base, "m%d" % n_tr); os.mkdir(dd)
+            cdd = controldir.format_registry.make_controldir("2a").initialize(dd); cdd.create_repository(); cdd.create_branch()
+            wtd = cdd.create_workingtree()
+            os.mkdir(os.path.join(dd, "d"))
+            for f_, c_ in (("a", "a\n"), ("b", "b\n"), ("d/c", "c\n")):
+                open(os.path.join(dd, f_), "w").write(c_)
+            wtd.add(["a", "b", "d", "d/c"], ids=[b"a-id", b"b-id", b"d-id", b"c-id"]); wtd.commit("1", committer="t <t@e.x>")
+            before = tree_state(wtd)
+            names = [o_.__name__[3:] for o_ in ops]
+            ttm = wtd.transform()
+            applied = False
+            try:
+                try:
+                    for o_ in ops:
+                        o_(ttm)
+                    T.resolve_conflicts(ttm)
+                except MalformedTransform:
+                    ttm.finalize()
+                    if tree_state(wtd.controldir.open_workingtree()) != before:
+                        verdict(True, "a transform refused as malformed changed the tree", input=names)
+                    shutil.rmtree(dd, ignore_errors=True)
+                    continue
+                except Exception:  # noqa  (misuse of the transform API by this menu: not a case of the statement)
+                    ttm.finalize()
+                    shutil.rmtree(dd, ignore_errors=True)
+                    continue
+                pv = ttm.get_preview_tree()
+                expected = tree_state(pv)
+                try:
+                    ttm.apply(no_conflicts=True)
+                    applied = True
+                except Exception as e:  # noqa
+                    verdict(True, "a transform that resolve_conflicts declared conflict-free failed while being applied",
+                            input=names, observed="%s: %s" % (type(e).__name__, str(e)[:200]))
+            finally:
+                if not applied:
+                    try:
+                        ttm.finalize()
+                    except Exception:  # noqa
+                        pass
+            actual = tree_state(wtd.controldir.open_workingtree())
+            if actual != expected:
+                verdict(True, "the applied tree differs from the preview", input=names, observed=str(actual), expected=str(expected))
+            shutil.rmtree(dd, ignore_errors=True)
+    verdict(False, "no failing scenario (%d transforms from the operation menu)" % n_tr)
 finally:
     shutil.rmtree(base, ignore_errors=True)
